@@ -4,6 +4,7 @@ import Pyvsc.Model.Expr
 import Pyvsc.Model.RandSets
 import Pyvsc.Model.Solve
 import Pyvsc.Model.Bounds
+import Pyvsc.Model.Dist
 import Pyvsc.Spec.Sem
 import Pyvsc.Spec.Values
 /-!
@@ -267,7 +268,9 @@ def popAt (l : List α) (i : Nat) : Option α × List α := (l[i]?, l.eraseIdx i
 
 open Pyvsc.Bounds in
 /-- `swizzle_field_l`: candidate expressions of one group in the order they are tried -/
-def swizzleGroup (doms : Array RL) (fields : List Nat) (d : DrawSt) : List Expr × DrawSt := Id.run do
+def swizzleGroup (doms : Array RL) (fields : List Nat) (d : DrawSt)
+    (fty : Nat → FieldTy := fun _ => ⟨1, false, false⟩)
+    (rsDists : List (Nat × Nat) := []) (distDefs : Array (List (Int × Option Int × Nat)) := #[]) : List Expr × DrawSt := Id.run do
   let mut fl := fields
   let mut d := d
   let mut nodes : List Expr := []
@@ -280,8 +283,31 @@ def swizzleGroup (doms : Array RL) (fields : List Nat) (d : DrawSt) : List Expr 
     match fo with
     | none => pure ()
     | some f =>
+      let mine := (rsDists.filter fun p => p.1 == f).map (·.2)
       let dm := doms.getD f []
-      if !isEmpty dm then
+      if !mine.isEmpty then
+        -- dist branch of `swizzle_field`
+        let (did, d2) := if mine.length > 1 then
+            let (k, d2) := draw d 0 ((mine.length : Int) - 1)
+            (mine.getD k.toNat 0, d2)
+          else (mine.getD 0 0, d)
+        d := d2
+        let ws := distDefs.getD did []
+        let wl := Pyvsc.Dist.weightList (ws.map fun x => x.2.2)
+        let total := (ws.map fun x => x.2.2).sum
+        let (sv, d3) := draw d 1 total
+        d := d3
+        match Pyvsc.Dist.nextTarget wl sv with
+        | some ti =>
+          match ws[ti]? with
+          | some (lo, some hi, _) =>
+            let (v, d4) := draw d lo hi
+            d := d4
+            nodes := nodes ++ [Expr.bin .eq (.fld f) (.lit v (fty f).s (fty f).w)]
+          | some (lo, none, _) => nodes := nodes ++ [Expr.bin .eq (.fld f) (.lit lo (fty f).s (fty f).w)]
+          | none => pure ()
+        | none => pure ()
+      else if !isEmpty dm then
         let (tr, d2) := if dm.length > 1 then
             let (k, d2) := draw d 0 ((dm.length : Int) - 1)
             (dm.getD k.toNat (0, 0), d2)
@@ -309,11 +335,12 @@ def swizzleGroup (doms : Array RL) (fields : List Nat) (d : DrawSt) : List Expr 
 def runCall (fields : Array Field) (tops : List Stmt) (recs : List Json) (limit : Nat)
     (implFinal : Option (Array Int)) (allF : List Nat) (boundTops : List Stmt := [])
     (draws : Option (List (Int × Int × Int)) := none) (orderPairs : List (Nat × Nat) := [])
-    (implBounds : Option (Array Bounds.RL) := none) : Except String Json := do
+    (implBounds : Option (Array Bounds.RL) := none)
+    (marks : List (Nat × Nat × Nat) := []) (distDefsE : Array (List (Expr × Option Expr × Expr)) := #[]) : Except String Json := do
   let Γ := envΓ fields
   let vals0 : Array Int := fields.map (·.val)
   let vn : Nat → String := fun i => match fields[i]? with | some f => f.name | none => s!"?{i}"
-  let st := RandSets.build tops
+  let st := RandSets.build tops marks
   let rsl := RandSets.randSets st
   let dropped := (List.range tops.length).filter fun k => !(rsl.any fun rs => rs.hard.any (fun c => c.1 == k) )
       && (match tops[k]? with | some (.soft _) => false | _ => true)
@@ -324,6 +351,16 @@ def runCall (fields : Array Field) (tops : List Stmt) (recs : List Json) (limit 
     | none => Bounds.initScalar f.ty.w f.ty.s
   let bst := Bounds.process Γ (envρ vals0) initDoms btops
   let mut dst : DrawSt := ⟨draws.getD [], true, 0⟩
+  -- dist definitions with their weights and bounds evaluated on the non-random values
+  let distDefs : Array (List (Int × Option Int × Nat)) := distDefsE.map fun ws => ws.map fun x =>
+    ((Bounds.pyEval (envρ vals0) x.1).getD 0, x.2.1.bind (Bounds.pyEval (envρ vals0)),
+     ((Bounds.pyEval (envρ vals0) x.2.2).getD 0).toNat)
+  -- `DistConstraintBuilder.build`: one discarded `next_target_range` draw per dist statement
+  for ws in distDefs do
+    -- (after repair: no draw when every weight is zero)
+    if (ws.map fun x => x.2.2).sum ≥ 1 then
+      let (_, d1) := draw dst 1 ((ws.map fun x => x.2.2).sum : Nat)
+      dst := d1
   let mut unconVals : List (Nat × Int) := []
   for i in (RandSets.unconstrained allF st).filter fun i => (Γ i).rand do
     let dm := bst.doms.getD i []
@@ -350,7 +387,7 @@ def runCall (fields : Array Field) (tops : List Stmt) (recs : List Json) (limit 
     if draws.isSome && (recs[k]?.map fun r => (getA r "answers").toOption.map (·.length) |>.getD 0).getD 0 > 1 then
       for g in groupsF do
         if !g.isEmpty then
-          let (es, d1) := swizzleGroup bst.doms g dst
+          let (es, d1) := swizzleGroup bst.doms g dst Γ rs.dists distDefs
           dst := d1
           candsJ := candsJ ++ [jList (fun e => Json.str (toSexp vn (lower Γ ρ e 0))) es]
     let drawsUsed := dst.used - drawsBefore
@@ -484,7 +521,27 @@ def runCall (fields : Array Field) (tops : List Stmt) (recs : List Json) (limit 
 def handleCall (j : Json) : Except String Json := do
   let fields := (← (← getA j "fields").mapM fieldOf).toArray
   let fk ← fkOf j
-  let tops ← (← getA j "tops").mapM (stmtOf fk)
+  -- a `dist` statement is replaced by the statements of its rewrite; the registration mark sits
+  -- after the last of them
+  let mut tops : List Stmt := []
+  let mut marks : List (Nat × Nat × Nat) := []
+  let mut distDefsE : Array (List (Expr × Option Expr × Expr)) := #[]
+  for tj in (← getA j "tops") do
+    if (getS tj "k").toOption == some "dist" then
+      let lhs ← exprOf fk (← tj.getObjVal? "e")
+      let ws ← (← getA tj "weights").mapM fun w => do
+        let wexp ← exprOf fk (← w.getObjVal? "w")
+        match getOpt w "single" with
+        | some sgl => pure (⟨← exprOf fk sgl, none, wexp⟩ : Pyvsc.Dist.Weight)
+        | none => pure ⟨← exprOf fk (← w.getObjVal? "lo"), some (← exprOf fk (← w.getObjVal? "hi")), wexp⟩
+      let ss := Pyvsc.Dist.rewrite lhs ws
+      tops := tops ++ ss
+      match lhs with
+      | .fld f => marks := marks ++ [(tops.length - 1, f, distDefsE.size)]
+      | _ => pure ()
+      distDefsE := distDefsE.push (ws.map fun x => (x.lo, x.hi, x.w))
+    else
+      tops := tops ++ [← stmtOf fk tj]
   let recs ← getA j "rec"
   let limit := (getN j "enumLimit").toOption.getD 14
   let implFinal : Option (Array Int) := match getOpt j "implFinal" with
@@ -513,7 +570,7 @@ def handleCall (j : Json) : Except String Json := do
             | _ => none
         | _ => [])
     | none => none
-  runCall fields tops recs limit implFinal (List.range fields.size) [] draws orderPairs implBounds
+  runCall fields tops recs limit implFinal (List.range fields.size) [] draws orderPairs implBounds marks distDefsE
 
 /-- `z.expr`: value of one expression under an environment, reference and lowered side by side -/
 def handleExpr (j : Json) : Except String Json := do
@@ -542,8 +599,19 @@ def handleBv (j : Json) : Except String Json := do
     | some (w, x) => Json.arr #[jNat w, jNat x]
     | none => Json.str "error"
 
+/-- `z.walk`: the weighted walk for every drawn value 1..total -/
+def handleWalk (j : Json) : Except String Json := do
+  let ws ← (← getA j "ws").mapM fun w => do pure (← w.getInt?).toNat
+  let total := ws.sum
+  let jo : Option Nat → Json := fun o => match o with | some i => jNat i | none => Json.null
+  pure <| Json.mkObj [
+    ("weightList", jList (fun (p : Nat × Nat) => Json.arr #[jNat p.1, jNat p.2]) (Pyvsc.Dist.weightList ws)),
+    ("next", jList (fun (r : Nat) => jo (Pyvsc.Dist.nextTarget (Pyvsc.Dist.weightList ws) ((r : Int) + 1))) (List.range total)),
+    ("select", jList (fun (r : Nat) => jo (Pyvsc.Dist.distselect ws ((r : Int) + 1))) (List.range total))]
+
 def handle (op : String) (j : Json) : Except String Json :=
   match op with
+  | "z.walk" => handleWalk j
   | "z.call" => handleCall j
   | "z.expr" => handleExpr j
   | "z.bv" => handleBv j
